@@ -217,6 +217,15 @@ func (fx *FnExec) applyContract(st *State, in *ssa.Call, fn *ssa.Function, fc *F
 	for i, p := range fn.Params {
 		env.vars[p.Name()] = args[i]
 	}
+	for old, news := range eng.renamesOf(fn) {
+		if _, have := env.vars[old]; !have {
+			for _, nn := range news {
+				if v, ok := env.vars[nn]; ok {
+					env.vars[old] = v
+				}
+			}
+		}
+	}
 	site := fx.siteName(in)
 	trc := func(e *Env, c *Clause) (string, bool) {
 		f, err := fx.safeTr(e, c)
